@@ -74,6 +74,13 @@ fn run(cfg: Cfg, input: &[String]) -> RunPlan {
 // ------------------------------------------------------------------------------------------
 // alphabets
 // ------------------------------------------------------------------------------------------
+/// pairs of distinct LOWER-case letters that the regex crate's simple case folding identifies (str::to_lowercase
+/// leaves both alone)
+pub const FOLD_PAIRS: &[(&str, &str)] = &[
+    ("s", "\u{17f}"), ("\u{3c3}", "\u{3c2}"), ("\u{3bc}", "\u{b5}"), ("\u{3b8}", "\u{3d1}"), ("\u{3b2}", "\u{3d0}"),
+    ("\u{3b5}", "\u{3f5}"), ("\u{3ba}", "\u{3f0}"), ("\u{3c0}", "\u{3d6}"), ("\u{3c1}", "\u{3f1}"), ("\u{3c6}", "\u{3d5}"),
+    ("\u{1e61}", "\u{1e9b}"),
+];
 pub const META: &[&str] = &["(", ")", "[", "]", "{", "}", "+", "*", "-", ".", "?", "|", "^", "$", "\\"];
 pub const CLUSTERS: &[&str] = &[
     "\u{1F1E9}\u{1F1EA}",       // regional indicator pair
@@ -470,7 +477,30 @@ impl Driver {
                 if rng.gen_bool(0.3) {
                     letters.extend(letters_from(&mut rng, &[MIXED_CLUSTERS], 1));
                 }
-                let tcs = shaped_set(&mut rng, &letters, 3, 3);
+                let mut tcs = shaped_set(&mut rng, &letters, 3, 3);
+                if rng.gen_bool(0.08) {
+                    // literal text that SPELLS a class escape next to characters of that class (D16: the repeated
+                    // two-character text \d and the repeated class \d have the same concatenated label text)
+                    let (esc, sample) = [("\\d", "1"), ("\\d", "\u{663}"), ("\\s", " "), ("\\w", "a"), ("\\D", "x"), ("\\W", "-"), ("\\S", "x")][rng.gen_range(0..7)];
+                    let n = rng.gen_range(1..=3);
+                    let (pre, suf) = (["", "x", "1"][rng.gen_range(0..3)], ["", "y", " "][rng.gen_range(0..3)]);
+                    tcs = vec![format!("{}{}{}", pre, sample.repeat(n), suf), format!("{}{}{}", pre, esc.repeat(n), suf)];
+                    if rng.gen_bool(0.4) {
+                        tcs.push(format!("{}{}{}", pre, esc.repeat(n + 1), suf));
+                    }
+                    tcs.sort();
+                    tcs.dedup();
+                    let mut runs = vec![run(base.clone(), &tcs), run(base.with("rep", true), &tcs)];
+                    for _ in 0..4 {
+                        let c = class_cfg(rng.gen_range(1..64u32));
+                        runs.push(run(c.with("rep", true), &tcs));
+                        runs.push(run(c.clone(), &tcs));
+                    }
+                    for f in ["digit", "space", "word", "nondigit", "nonword", "nonspace"] {
+                        runs.push(run(base.with(f, true).with("rep", true), &tcs));
+                    }
+                    return mk(tcs, runs);
+                }
                 let mut runs = vec![run(base.clone(), &tcs)];
                 let nsub = if self.thorough { 10 } else { 6 };
                 for _ in 0..nsub {
@@ -685,6 +715,27 @@ impl Driver {
                 if rng.gen_bool(0.5) {
                     letters.extend(letters_from(&mut rng, &pools, 2));
                 }
+                if rng.gen_bool(0.12) {
+                    // distinct lower-case letters of one simple case-folding orbit: under (?i) one test case is a
+                    // prefix of the other although the strings share nothing; the same sets are built first without
+                    // and then with case-insensitive matching (same expression text, different flag)
+                    let (x, y) = FOLD_PAIRS[rng.gen_range(0..FOLD_PAIRS.len())];
+                    let (x, y) = if rng.gen_bool(0.5) { (x, y) } else { (y, x) };
+                    let mut tcs = vec![x.to_string(), y.repeat(rng.gen_range(2..=4))];
+                    if rng.gen_bool(0.4) {
+                        tcs.push(format!("{}{}", pick(&mut rng, PLAIN), x));
+                    }
+                    tcs.sort();
+                    tcs.dedup();
+                    let open = if rng.gen_bool(0.6) { base.with("noend", true) } else { base.with("noend", true).with("nostart", true) };
+                    let runs = vec![
+                        run(open.clone(), &tcs),
+                        run(open.with("icase", true), &tcs),
+                        run(open.with("rep", true), &tcs),
+                        run(open.with("rep", true).with("icase", true), &tcs),
+                    ];
+                    return mk(tcs, runs);
+                }
                 let tcs = shaped_set(&mut rng, &letters, 5, 4);
                 let ctxs = [
                     base.clone(),
@@ -721,7 +772,7 @@ impl Driver {
                     tcs.sort();
                     tcs.dedup();
                 }
-                let ctx = match rng.gen_range(0..6) {
+                let mut ctx = match rng.gen_range(0..6) {
                     0 => base.with("rep", true),
                     1 => base.with("verbose", true),
                     2 => base.with("nondigit", true),
@@ -729,6 +780,26 @@ impl Driver {
                     4 => base.with("rep", true).with("capture", true),
                     _ => base.clone(),
                 };
+                if rng.gen_bool(0.2) {
+                    // repetitions nested three or four levels deep with non-ASCII / meta characters at every level:
+                    // ((x{2}y){2}z){2} - the escaping has to reach every level
+                    let pools: [&'static [&'static str]; 3] = [ASTRAL, META, PLAIN];
+                    let l = letters_from(&mut rng, &pools, 2);
+                    let a = pick(&mut rng, ASTRAL);
+                    let inner = format!("{}{}", a.repeat(rng.gen_range(2..=3)), l[0]);
+                    let mid = format!("{}{}", inner.repeat(2), pick(&mut rng, ASTRAL));
+                    let mut outer = mid.repeat(2);
+                    if rng.gen_bool(0.4) {
+                        outer = format!("{}{}", outer, l[l.len() - 1]).repeat(2);
+                    }
+                    tcs = vec![outer];
+                    if rng.gen_bool(0.4) {
+                        tcs.push(mid.clone());
+                    }
+                    tcs.sort();
+                    tcs.dedup();
+                    ctx = if rng.gen_bool(0.5) { base.with("rep", true) } else { base.with("rep", true).with(["capture", "verbose", "icase"][rng.gen_range(0..3)], true) };
+                }
                 let e = ctx.with("escape", true);
                 mk(tcs.clone(), vec![run(ctx.clone(), &tcs), run(e.clone(), &tcs), run(e.with("surr", true), &tcs)])
             }
@@ -736,10 +807,36 @@ impl Driver {
             "color" => {
                 let pools: [&'static [&'static str]; 5] = [ESCS, ESCS, PLAIN, META, DIGITS];
                 let letters = letters_from(&mut rng, &pools, 5);
-                let tcs = shaped_set(&mut rng, &letters, 4, 5);
+                let mut tcs = shaped_set(&mut rng, &letters, 4, 5);
+                let after_esc = rng.gen_bool(0.1);
+                if after_esc {
+                    // a literal ESC directly followed by a character class that spells the tail of an SGR sequence
+                    // ("[0m]", "[1;3]"): plain output that resembles a colour code
+                    let (pre, suf) = (["", "a", "\u{1b}"][rng.gen_range(0..3)], ["", "z", "m"][rng.gen_range(0..3)]);
+                    let members = [["0", "m"], ["0", "1"], ["1", ";"], ["3", "m"], ["0", ";"]][rng.gen_range(0..5)];
+                    tcs = members.iter().map(|x| format!("{}\u{1b}{}{}", pre, x, suf)).collect();
+                    if rng.gen_bool(0.3) {
+                        tcs.push(format!("{}\u{1b}n{}", pre, suf));
+                    }
+                    if rng.gen_bool(0.5) {
+                        // ... or complete SGR look-alikes inside one literal run (coloured log lines)
+                        let sgr = ["\u{1b}[0m", "\u{1b}[1;31m", "\u{1b}[104;37m", "\u{1b}[1;33m"];
+                        let a = sgr[rng.gen_range(0..sgr.len())];
+                        let b = sgr[rng.gen_range(0..sgr.len())];
+                        tcs = vec![format!("{}{}red{}", pre, a, b), format!("{}{}red{}{}", pre, a, b, ["x", "mm", "red"][rng.gen_range(0..3)])];
+                        if rng.gen_bool(0.5) {
+                            tcs.push(format!("{}{}", pre, a));
+                        }
+                    }
+                    tcs.sort();
+                    tcs.dedup();
+                }
                 let mut runs = vec![];
-                for _ in 0..4 {
+                for k in 0..4 {
                     let mut c = random_cfg(&mut rng, true);
+                    if after_esc && k < 2 {
+                        c = if k == 0 { base.with("noend", true) } else { base.with("noend", true).with("nostart", true) };
+                    }
                     if rng.gen_bool(0.2) {
                         c.escape = true;
                         c.surr = true;
